@@ -119,7 +119,9 @@ func externalWrites(name string) ([]int, bool) {
 	case name == "crypto/subtle.XORBytes":
 		return []int{0}, true
 	case name == "io.ReadFull":
-		return []int{1}, true
+		// fills the buffer and advances the reader (a reader's state is memory like any other: a package-level reader
+		// shared by concurrent callers is written here)
+		return []int{0, 1}, true
 	case strings.HasPrefix(name, "(*golang.org/x/crypto/cryptobyte.String).Read"):
 		return []int{0, 1}, true
 	case strings.HasPrefix(name, "(*golang.org/x/crypto/cryptobyte.Builder)."), strings.HasPrefix(name, "(*math/big.Int)."), strings.HasPrefix(name, "(*gitlab.com/yawning/tuplehash.Hasher)."):
